@@ -196,7 +196,7 @@ def compare(ws, sch, rec, item, emit):
         why = "line"
     elif got["res"] != c["file"]:
         why = "resource"
-    elif got["kind"] == "conv" and (got["value"] != c["value"] or got["exc"] != "ValueError"):
+    elif got["kind"] == "conv" and (got["value"] != c["value"] or got["exc"] not in ("ValueError", "DataConversionError")):
         why = "conversion-error-value"
     if why is None and len(item["files"]) == 1 and not item["opts"]:
         # the same text from an open file object without a name: there is no URL to carry, the line is the same
@@ -214,7 +214,7 @@ def compare(ws, sch, rec, item, emit):
             why = "url-less: error-kind"
         elif got["line"] != c["line"]:
             why = "url-less: line"
-        elif got["kind"] == "conv" and (got["value"] != c["value"] or got["exc"] != "ValueError"):
+        elif got["kind"] == "conv" and (got["value"] != c["value"] or got["exc"] not in ("ValueError", "DataConversionError")):
             why = "url-less: conversion-error-value"
     if why is None:
         return None
@@ -227,6 +227,12 @@ def run(chk):
     quick = chk.tier == "quick"
     rng = random.Random(chk.seed * 7919 + 8)
     docs = schemas.interaction_schemas()
+    # a datatype that fails with a DataConversionError of its own (it is a ValueError): the rejection still names
+    # the line of the value that could not be converted - also when that only shows as the section closes
+    from ..schemas import K, MK, MSEC, SEC, SCHEMA, TYPE
+    docs = list(docs) + [SCHEMA(types=[TYPE("f", [K("label"), K("rules", "dcerr"), MK("more", "dcerr")]),
+                                       TYPE("chain", [MSEC("f", "+", "fs"), K("r1", "dcerr")])],
+                                children=[SEC("chain", "*", "chain"), K("title"), K("r0", "dcerr"), MSEC("f", "*", "fs")])]
     per = 150 if quick else 1500
     chk.rule = ("for each family schema: random accepted texts, one injected fault of each of %d kinds at a random position "
                 "(culprit known by construction), then 0..2 balanced cuts into included files; all scenarios distinct by "
